@@ -932,3 +932,220 @@ End DirNames.
 Definition iter_pathname (out : fspath) (d : iter_path) : fspath := out ++ [numbered S_iter (Z.to_nat (fst d))].
 Definition plate_pathname (out : fspath) (p : plate_path) : fspath :=
   out ++ [numbered S_iter (Z.to_nat (fst (fst p))); numbered S_plate (Z.to_nat (snd (fst p)))].
+
+(* ---------- vocabulary of the source-translation link of validate_initial_output_dir_and_get_result_files_as_dict
+   (harness/src_functions.py C19_VALIDATE_INITIAL, Generated/SrcOrchInit.v; proofs: Proofs/C19Source_ValidateInitial.v) ----------
+   The function is handed the job directory of the INITIAL step (iter_0/plate_0); as for the other helpers the path is the
+   model value it denotes (a globbed plate directory = ((i, j), its files)) and a glob for one file name has at most one match.
+     initial_required      the files the function insists on, in the order it reads them out of its three globs
+     initial_files         the dict it returns: {"test_screen": path, "training_screen": path, "screen_metadata": loaded json}
+                           (a metadata object is its n_unobserved_plates entry, as everywhere in this model)
+     validate_initial      None when training.screen.h5 or screen_metadata.json is missing (the `or` of the two len tests);
+                           with both present and NO test.screen.h5 the read `test_screen_glob[0]` is an IndexError (why = 98):
+                           the test screen is required too, but its absence is an exception, not a None
+     initial_complete      all three are there: exactly when the function returns the dict *)
+Definition initial_required : list kind := [KTest; KTraining; KMeta].
+Definition initial_complete (d : pdir) : bool := forallb (produced d) initial_required.
+Record initial_files := mkif { if_test : spath; if_training : spath; if_meta : Z }.
+Definition validate_initial (p : plate_path) : sres (option initial_files) :=
+  match f_training (snd p), f_meta (snd p) with
+  | Some _, Some m =>
+      if f_test (snd p) then SOk (Some (mkif (SFile (fst p) KTest) (SFile (fst p) KTraining) m))
+      else SRaised [] 98
+  | _, _ => SOk None
+  end.
+
+(* ---------- vocabulary of the source-translation link of get_args (harness/src_functions.py C19_GET_ARGS,
+   Generated/SrcOrchArgs.v; proofs: Proofs/C19Source_GetArgs.v) ----------
+   A string is the list of its code points (str).  The parser object held in the variable `parser` is its OPTION TABLE, in
+   the order of the add_argument calls:
+     optspec            one add_argument("--flag", ...) call: the option string, the conversion (type=str / type=int / no type
+                        but choices=[...]), required=, default= (an int default, or none)
+     dest_of_flag       argparse's rule for the attribute name: the first long option string without its leading "--", every
+                        "-" replaced by "_"
+     namespace          the object parse_known_args returns: one attribute per declared option, in table order
+     parse_known_args   parser.parse_known_args() on the command line (sys.argv[1:]): the words are read from the left; a word
+                        that IS a declared option string takes the next word as its value (missing, or a word that starts with
+                        "-": `expected one argument`), the value is converted (int: an unsigned ASCII decimal numeral; choices:
+                        membership), a later occurrence overrides an earlier one; every other word goes, in order, to the list
+                        of remaining arguments; at the end an option that was not given takes its default (None without one) and a
+                        required one that was not given is an error.  Every argparse error is SystemExit(2): why = 64.
+                        NOT REPRESENTED (why = 90, not a Python behaviour - like MNoFuel): command lines that use argparse's other
+                        spellings - a word with "=" (--opt=value), an abbreviation (a proper prefix of a declared option, which
+                        includes "--" and "-"), -h / --help and anything that starts like them, a word that starts with "-" and
+                        a digit or "." (negative numbers are values, not options), a word that contains a space, and integers in
+                        the forms int() accepts beyond [0-9]+ (sign, "_", white space, non-ASCII digits).
+     orch_options       the table of the script's parser
+     margs_of_ns        what main() reads of the namespace: args.mode (one of the two strings `choices` admits, else NOther),
+                        args.batch_size (an int); args.outdir / args.screen must be strings (os.path.abspath) *)
+Inductive argtype := TStr | TInt | TChoice (choices : list str).
+Record optspec := mko { o_flag : str; o_type : argtype; o_required : bool; o_default : option Z }.
+Definition dest_of_flag (flag : str) : str := map (fun c => if c =? 45 then 95 else c) (skipn 2 flag).
+Definition o_dest (o : optspec) : str := dest_of_flag (o_flag o).
+Inductive nsval := VStr (s : str) | VInt (z : Z) | VNone.
+Definition namespace := list (str * nsval).
+
+Fixpoint ns_get (d : str) (ns : namespace) : option nsval :=
+  match ns with
+  | [] => None
+  | (k, v) :: r => if zlist_eqb k d then Some v else ns_get d r
+  end.
+Fixpoint ns_set (d : str) (v : nsval) (ns : namespace) : namespace :=
+  match ns with
+  | [] => [(d, v)]
+  | (k, x) :: r => if zlist_eqb k d then (k, v) :: r else (k, x) :: ns_set d v r
+  end.
+
+Definition find_opt (table : list optspec) (w : str) : option optspec :=
+  find (fun o => zlist_eqb (o_flag o) w) table.
+Definition starts_with_dash (w : str) : bool := match w with 45 :: _ => true | _ => false end.
+Fixpoint is_prefix (a b : str) : bool :=
+  match a, b with
+  | [], _ => true
+  | x :: a', y :: b' => (x =? y) && is_prefix a' b'
+  | _ :: _, [] => false
+  end.
+Definition is_digit (c : Z) : bool := (48 <=? c) && (c <=? 57).
+Definition is_alnum_dot (c : Z) : bool :=
+  is_digit c || ((65 <=? c) && (c <=? 90)) || ((97 <=? c) && (c <=? 122)) || (c =? 46).
+(* the spellings of argparse that the model does not represent (see above) *)
+Definition unmodelled_word (table : list optspec) (w : str) : bool :=
+  starts_with_dash w &&
+  match find_opt table w with
+  | Some _ => false                                            (* exactly a declared option string *)
+  | None =>
+      existsb (Z.eqb 61) w || existsb (Z.eqb 32) w
+      || existsb (fun o => is_prefix w (o_flag o)) table
+      || match w with
+         | 45 :: 104 :: _ => true | 45 :: 45 :: 104 :: _ => true     (* -h..., --h... *)
+         | 45 :: c :: _ => is_digit c || (c =? 46)
+         | _ => false
+         end
+  end.
+
+Definition convert_arg (t : argtype) (v : str) : sres nsval :=
+  match t with
+  | TStr => SOk (VStr v)
+  | TInt =>
+      match v, uint_of_chars v with
+      | _ :: _, Some u => SOk (VInt (Z.of_nat (Nat.of_uint u)))
+      | _, _ => if forallb is_alnum_dot v then SRaised [] 64 else SRaised [] 90
+      end
+  | TChoice cs => if existsb (zlist_eqb v) cs then SOk (VStr v) else SRaised [] 64
+  end.
+
+Fixpoint scan_words (table : list optspec) (ws : list str) (ns : namespace) (extras : list str) : sres (namespace * list str) :=
+  match ws with
+  | [] => SOk (ns, extras)
+  | w :: r =>
+      match find_opt table w with
+      | Some o =>
+          match r with
+          | v :: r' =>
+              if starts_with_dash v then SRaised [] 64
+              else dos x <- convert_arg (o_type o) v; scan_words table r' (ns_set (o_dest o) x ns) extras
+          | [] => SRaised [] 64
+          end
+      | None => scan_words table r ns (extras ++ [w])
+      end
+  end.
+
+Fixpoint finish_namespace (table : list optspec) (given : namespace) : sres namespace :=
+  match table with
+  | [] => SOk []
+  | o :: r =>
+      dos v <- match ns_get (o_dest o) given with
+               | Some v => SOk v
+               | None => if o_required o then SRaised [] 64
+                         else SOk (match o_default o with Some d => VInt d | None => VNone end)
+               end;
+      dos rest <- finish_namespace r given;
+      SOk ((o_dest o, v) :: rest)
+  end.
+
+Definition parse_known_args (table : list optspec) (cmdline : list str) : sres (namespace * list str) :=
+  if existsb (unmodelled_word table) cmdline then SRaised [] 90
+  else dos r <- scan_words table cmdline [] [];
+       dos ns <- finish_namespace table (fst r);
+       SOk (ns, snd r).
+
+Section ArgLiterals.
+Import Coq.Strings.String.
+Definition L_batch_size : str := Eval compute in lit "--batch-size".
+Definition D_screen : str := Eval compute in lit "screen".
+Definition D_batch_size : str := Eval compute in lit "batch_size".
+Definition D_mode : str := Eval compute in lit "mode".
+Definition D_outdir : str := Eval compute in lit "outdir".
+End ArgLiterals.
+
+Definition orch_options : list optspec :=
+  [ mko L_screen TStr true None;
+    mko L_batch_size TInt false (Some 1);
+    mko L_mode (TChoice [L_retrospective; L_prospective]) true None;
+    mko L_outdir TStr true None ].
+
+Definition modename_of_str (s : str) : modename :=
+  if zlist_eqb s L_retrospective then NRetrospective
+  else if zlist_eqb s L_prospective then NProspective else NOther 0.
+Definition margs_of_ns (ns : namespace) : option margs :=
+  match ns_get D_mode ns, ns_get D_batch_size ns, ns_get D_outdir ns, ns_get D_screen ns with
+  | Some (VStr m), Some (VInt b), Some (VStr _), Some (VStr _) => Some (mka (modename_of_str m) b)
+  | _, _, _, _ => None
+  end.
+
+(* ---------- vocabulary of the source-translation link of the path helpers get_script_location / get_nextflow_dir /
+   get_base_config / get_repository_root / get_main_nf_file (harness/src_functions.py C19_PATH_*, Generated/SrcOrchPaths.v; proofs:
+   Proofs/C19Source_Paths.v) and of the command builders re-translated over them (C19_RUN_*_CLOSED, Generated/SrcOrchCmdClosed.v;
+   proofs: Proofs/C19Source_CmdClosed.v) ----------
+   An absolute path is the list of its components below "/" (fspath; a component is a string without "/").
+     pyfile             the module global __file__, denoted by the path os.path.realpath resolves it to (absolute, no symbolic
+                        link, no "." / ".." / empty component: clean_path)
+     dirname            os.path.dirname of such a path: all components but the last
+     path_join          os.path.join(p, c1, ..) with relative single-component names c1, ..: they are appended
+     abspath            os.path.abspath of an absolute path = os.path.normpath: "." and empty components are dropped, ".." removes
+                        the component before it ("/.." is "/"); purely textual, symbolic links are not looked at
+     script_location .. main_nf_file   the five helpers as written
+     script_in root     where the script lies in a checkout of the repository at [root]: root/nextflow/scripts/batchie.py
+     word_of_file root p   the command-line word a path is for a script whose pipeline (the main.nf and workflows the model's
+                        `outputs` describes) is the checkout at [root]: root/main.nf is WMainNf, any other path is its text *)
+Definition pyfile := fspath.
+Definition realpath_of (f : pyfile) : fspath := f.
+Definition dirname (p : fspath) : fspath := removelast p.
+Definition path_join (p : fspath) (more : list str) : fspath := p ++ more.
+Section PathLiterals.
+Import Coq.Strings.String.
+Definition S_dotdot : str := Eval compute in lit "..".
+Definition S_dot : str := Eval compute in lit ".".
+Definition S_main_nf : str := Eval compute in lit "main.nf".
+Definition S_nextflow_config : str := Eval compute in lit "nextflow.config".
+Definition S_nextflow : str := Eval compute in lit "nextflow".
+Definition S_scripts : str := Eval compute in lit "scripts".
+Definition S_batchie_py : str := Eval compute in lit "batchie.py".
+End PathLiterals.
+Fixpoint norm_rev (p : fspath) (acc : list str) : list str :=      (* acc: the components kept so far, the last one first *)
+  match p with
+  | [] => acc
+  | c :: r =>
+      if zlist_eqb c S_dotdot then norm_rev r (tl acc)
+      else if zlist_eqb c S_dot || is_nil c then norm_rev r acc
+      else norm_rev r (c :: acc)
+  end.
+Definition abspath (p : fspath) : fspath := rev (norm_rev p []).
+Definition clean_path (p : fspath) : Prop := Forall (fun c => c <> S_dotdot /\ c <> S_dot /\ c <> []) p.
+
+Definition script_location (f : pyfile) : fspath := abspath (dirname (realpath_of f)).
+Definition nextflow_dir (f : pyfile) : fspath := abspath (path_join (script_location f) [S_dotdot]).
+Definition base_config (f : pyfile) : fspath := abspath (path_join (nextflow_dir f) [S_dotdot; S_nextflow_config]).
+Definition repository_root (f : pyfile) : fspath := abspath (path_join (script_location f) [S_dotdot; S_dotdot]).
+Definition main_nf_file (f : pyfile) : fspath := abspath (path_join (repository_root f) [S_main_nf]).
+
+Definition script_in (root : fspath) : pyfile := root ++ [S_nextflow; S_scripts; S_batchie_py].
+Fixpoint fspath_eqb (a b : fspath) : bool :=
+  match a, b with
+  | [], [] => true
+  | x :: a', y :: b' => zlist_eqb x y && fspath_eqb a' b'
+  | _, _ => false
+  end.
+Definition path_text (p : fspath) : str := flat_map (fun c => 47 :: c) p.
+Definition word_of_file (root p : fspath) : word :=
+  if fspath_eqb p (root ++ [S_main_nf]) then WMainNf else WLit (path_text p).
